@@ -1,4 +1,5 @@
 (* C12  Comments survive read -> write (extraction and literal re-insertion), header, comments off. *)
+From Coq Require Import String.   (* string literals of the examples; imported first so the list names win *)
 From Coq Require Import NArith ZArith List Bool.
 From DictIO Require Import Chars Str Value Scalar SDict Layout Lexer LayoutSpec LayoutProofs.
 Import ListNotations.
@@ -14,12 +15,47 @@ Theorem C12_extract_line_comment : forall before rest nl count,
 Proof. exact extract_line_comment_spec. Qed.
 Print Assumptions C12_extract_line_comment.
 
+(* non-vacuity: code with a colon (not at its end) in front of a comment that contains quotes, braces, a dollar, a
+   backslash, a URL and a second pair of slashes; counter just before the wrap-around *)
+Example C12_extract_line_comment_nonvacuous :
+  let before := of_string "key: 'v' 1.5;  " in
+  let rest := of_string " it's {a} ""$b"" \ http://x.y // again" in
+  let nl := [c_lf] in
+  no_slash before /\ no_colon_end before /\ no_lf rest /\ no_lf before /\ line_end nl /\
+  extract_line_comment true 999999 (before ++ c_slash :: c_slash :: rest ++ nl) =
+    (of_string "key: 'v' 1.5;  LINECOMMENT000000" ++ nl, 0%Z, Some (0%N, c_slash :: c_slash :: rest)).
+Proof.
+  intros before rest nl.
+  assert (H1 : no_slash before) by (vm_compute; reflexivity).
+  assert (H2 : no_colon_end before) by (vm_compute; reflexivity).
+  assert (H3 : no_lf rest) by (vm_compute; reflexivity).
+  assert (H4 : no_lf before) by (vm_compute; reflexivity).
+  assert (H5 : line_end nl) by (right; reflexivity).
+  exact (conj H1 (conj H2 (conj H3 (conj H4 (conj H5 (C12_extract_line_comment before rest nl 999999 H1 H2 H3 H4 H5)))))).
+Qed.
+
 (* with comments switched off nothing of the comment remains in the line *)
 Theorem C12_comments_off : forall before rest nl count,
   no_slash before -> no_colon_end before -> no_lf rest -> no_lf before -> line_end nl ->
   fst (fst (extract_line_comment false count (before ++ c_slash :: c_slash :: rest ++ nl))) = before ++ nl.
 Proof. exact extract_line_comment_off. Qed.
 Print Assumptions C12_comments_off.
+
+Example C12_comments_off_nonvacuous :
+  let before := of_string "key: 'v' 1.5;  " in
+  let rest := of_string " it's {a} ""$b"" \ http://x.y // again" in
+  let nl := [c_lf] in
+  no_slash before /\ no_colon_end before /\ no_lf rest /\ no_lf before /\ line_end nl /\
+  fst (fst (extract_line_comment false 41 (before ++ c_slash :: c_slash :: rest ++ nl))) = of_string "key: 'v' 1.5;  " ++ nl.
+Proof.
+  intros before rest nl.
+  assert (H1 : no_slash before) by (vm_compute; reflexivity).
+  assert (H2 : no_colon_end before) by (vm_compute; reflexivity).
+  assert (H3 : no_lf rest) by (vm_compute; reflexivity).
+  assert (H4 : no_lf before) by (vm_compute; reflexivity).
+  assert (H5 : line_end nl) by (right; reflexivity).
+  exact (conj H1 (conj H2 (conj H3 (conj H4 (conj H5 (C12_comments_off before rest nl 41 H1 H2 H3 H4 H5)))))).
+Qed.
 
 (* re-insertion is literal: the placeholder pair is replaced by the comment text as it is (no template
    interpretation), the surrounding text is kept *)
@@ -30,6 +66,36 @@ Theorem C12_insert_literal : forall ph repl pre post ws fuel,
   exists post', fst (sub_ph_pair fuel ph repl (pre ++ ph ++ ws ++ ph ++ [c_semi] ++ post)) = pre ++ repl ++ post'.
 Proof. exact sub_ph_pair_literal. Qed.
 Print Assumptions C12_insert_literal.
+
+(* non-vacuity: the placeholder pair as the writer lays it out (30-column padding between key and value), a comment
+   text full of characters that a regex replacement template would interpret, fuel as insert_line_comments uses it;
+   the last part evaluates the substitution: here the rest of the text is kept, too *)
+Example C12_insert_literal_nonvacuous :
+  let ph := placeholder w_LINECOMMENT 7 in
+  let repl := of_string "// \1 \g<0> it's ""x"" $y {z} \n" in
+  let pre := of_string "a 1;" ++ [c_lf] in let post := c_lf :: of_string "b 2;" ++ [c_lf] in
+  let ws := repeat c_sp 13 in
+  let txt := pre ++ ph ++ ws ++ ph ++ [c_semi] ++ post in
+  let fuel := S (length txt) in
+  (match ph with c :: _ => has_char c pre = false | [] => False end) /\
+  (forall c, In c ph -> is_space c = false) /\ (forall c, In c ws -> is_space c = true) /\ ws <> [] /\
+  (length txt < fuel)%nat /\
+  (exists post', fst (sub_ph_pair fuel ph repl txt) = pre ++ repl ++ post') /\
+  fst (sub_ph_pair fuel ph repl txt) = pre ++ repl ++ post.
+Proof.
+  intros ph repl pre post ws txt fuel.
+  assert (H1 : match ph with c :: _ => has_char c pre = false | [] => False end) by (vm_compute; reflexivity).
+  assert (H2 : forall c, In c ph -> is_space c = false).
+  { intros c Hc. assert (E : forallb (fun c => negb (is_space c)) ph = true) by (vm_compute; reflexivity).
+    apply negb_true_iff. exact (proj1 (forallb_forall _ _) E c Hc). }
+  assert (H3 : forall c, In c ws -> is_space c = true).
+  { intros c Hc. assert (E : forallb is_space ws = true) by (vm_compute; reflexivity).
+    exact (proj1 (forallb_forall _ _) E c Hc). }
+  assert (H4 : ws <> []) by discriminate.
+  assert (H5 : (length txt < fuel)%nat) by (apply PeanoNat.Nat.ltb_lt; vm_compute; reflexivity).
+  refine (conj H1 (conj H2 (conj H3 (conj H4 (conj H5 (conj (C12_insert_literal ph repl pre post ws fuel H1 H2 H3 H4 H5) _)))))).
+  vm_compute. reflexivity.
+Qed.
 
 (* the default header is added exactly once *)
 Theorem C12_header_once : forall bc,
